@@ -14,9 +14,13 @@ EXTENDS Hamiltonian, Json, IOUtils
 
 Data == JsonDeserialize(IOEnv.TRACE_FILE)
 Tr == Data.traces
+Strict == IF "strict" \in DOMAIN Data THEN Data.strict ELSE TRUE
+(* a flag whose record says `foreign` states a clause of another property (C02 sparsity of a constructor's tensors, C19 arguments *)
+(* unchanged): strict-only in this check                                                                                         *)
 VARIABLES tid, l
 tvars == <<tid, l>>
 Rec == Tr[tid][l]
+IsForeign == "foreign" \in DOMAIN Rec /\ Rec.foreign
 HasRec == tid <= Len(Tr) /\ l <= Len(Tr[tid])
 TraceInit == tid = 1 /\ l = 1
 
@@ -84,7 +88,7 @@ MolOK ==
 SameOK == SameUpToScale(Mat(MpoOf(Rec.T1)), Rec.S2, Mat(MpoOf(Rec.T2)), Rec.S1)
 
 CallOK == IF Rec.ev = "model" THEN ModelOK ELSE IF Rec.ev = "model_dense" THEN DenseModelOK ELSE IF Rec.ev = "mol" THEN MolOK ELSE IF Rec.ev = "same" THEN SameOK
-          ELSE IF Rec.ev = "flag" THEN Rec.ok ELSE FALSE
+          ELSE IF Rec.ev = "flag" THEN (Rec.ok \/ (~Strict /\ IsForeign)) ELSE FALSE
 TCall == /\ HasRec /\ (CallOK = TRUE) /\ l' = l + 1 /\ tid' = tid
 TNextTrace == /\ tid <= Len(Tr) /\ l > Len(Tr[tid])
               /\ TLCSet(1, TLCGet(1) \cup {tid})
@@ -101,7 +105,7 @@ Diagnose ==
     ELSE IF Rec.ev = "model_dense" THEN "dense matrix differs from the textbook definition (or sparsity / Hermiticity / conservation)"
     ELSE IF Rec.ev = "mol" THEN "molecular MPO differs from the second-quantized operator (or sparsity / Hermiticity)"
     ELSE IF Rec.ev = "same" THEN "the two build paths represent different operators"
-    ELSE IF Rec.ev = "flag" THEN Rec.what
+    ELSE IF Rec.ev = "flag" THEN (IF IsForeign THEN "spec: (clause of another property) " ELSE "") \o Rec.what
     ELSE "unexpected event"
 TReject == /\ HasRec /\ (CallOK = FALSE)
            /\ PrintT(<<"REJECT", tid, l, Rec.ev, Diagnose>>)
